@@ -105,7 +105,17 @@ var inventory = []string{
 	"xyz.Distances", "bigxy.Orientation", "bigxy.Intersection", "transform.UniqueCoords",
 	"wkb.Marshal", "ewkb.Marshal", "wkbhex.Encode", "ewkbhex.Encode", "wkt.Marshal", "wkt.MarshalDigits", "geojson.Marshal", "geojson.MarshalBBox", "geojson.Feature", "igc.Encode", "kml.Encode",
 	"wkb.Unmarshal", "ewkb.Unmarshal", "ewkb.Scan", "wkt.Unmarshal", "geojson.Unmarshal", "igc.Read",
+	"geojson.MarshalSharedOpts", "geojson.MarshalSharedOpts", "wkt.MarshalSharedOpts", "wkb.UnmarshalSharedOpts",
 }
+
+// Option values are plain values that callers naturally create once and pass to
+// many calls: these are shared by all goroutines of a case.
+var (
+	sharedGeoJSONDigits = []geojson.EncodeGeometryOption{geojson.EncodeGeometryWithMaxDecimalDigits(2), geojson.EncodeGeometryWithMaxDecimalDigits(5)}
+	sharedGeoJSONBBox   = geojson.EncodeGeometryWithBBox()
+	sharedWKTDigits     = []wkt.EncodeOption{wkt.EncodeOptionWithMaxDecimalDigits(1), wkt.EncodeOptionWithMaxDecimalDigits(4)}
+	sharedWKBNaN        = wkbcommon.WKBOptionEmptyPointHandling(wkbcommon.EmptyPointHandlingNaN)
+)
 
 func genCase(t *rapid.T) Case {
 	c := Case{Goroutines: rapid.IntRange(4, 16).Draw(t, "goroutines")}
@@ -461,6 +471,24 @@ func execInner(pool []*item, c Call, geomRes func(geom.T, error) string, bytesRe
 		}
 		bts, err := geojson.Marshal(t, geojson.EncodeGeometryWithMaxDecimalDigits(c.B%6))
 		return fmt.Sprint(string(bts), err)
+	case "geojson.MarshalSharedOpts":
+		if a.g.Layout == 5 {
+			return "n/a"
+		}
+		opts := []geojson.EncodeGeometryOption{sharedGeoJSONDigits[c.B%2]}
+		if !a.g.Empty() && !a.g.IsCollection() && c.B%3 == 0 {
+			opts = append(opts, sharedGeoJSONBBox)
+		}
+		bts, err := geojson.Marshal(t, opts...)
+		return fmt.Sprint(string(bts), err)
+	case "wkt.MarshalSharedOpts":
+		s, err := wkt.Marshal(t, sharedWKTDigits[c.B%2])
+		return fmt.Sprint(s, err)
+	case "wkb.UnmarshalSharedOpts":
+		if a.wkb == nil {
+			return "n/a"
+		}
+		return geomRes(wkb.Unmarshal(a.wkb, sharedWKBNaN))
 	case "geojson.MarshalBBox":
 		if a.g.Layout == 5 || a.g.Empty() || a.g.IsCollection() {
 			return "n/a"
